@@ -18,6 +18,9 @@ THEOREMS = [
     "BeyondVerif.C07.fields_denote_instant",
     "BeyondVerif.C07.fields_jday",
     "BeyondVerif.C07.time_resolution",
+    "BeyondVerif.C07.history_reply_eq_fresh",
+    "BeyondVerif.C07.history_reply_eq_fresh_new",
+    "BeyondVerif.C07.bind_key_covers_regen",
     "BeyondVerif.C07.beta_frame_orthonormal",
     "BeyondVerif.C07.beta_kepler_residual",
     "BeyondVerif.C07.beta_kepler_residual_abs",
@@ -211,9 +214,126 @@ def _subst(node, name, new):
     return S().visit(node)
 
 
+# ---------------------------------------------------------------- extraction: sgp4.py binding logic -> Generated/Sgp4WrapBind.lean
+
+WRAP_PY = os.path.join(core.REPO, "beyond", "propagators", "sgp4.py")
+TLE_PY = os.path.join(core.REPO, "beyond", "io", "tle.py")
+# the statements the wrapper model (Model/Sgp4Wrap.lean: Wrapper.run, Machine.bind, Machine.step) stands for, as source text; the extractor
+# REFUSES any other shape (an added shortcut, another member of the class) instead of silently keeping the old model
+EXPECT_SETTER = """
+tle = Tle.from_orbit(orbit)
+lines = tle.text.splitlines()
+if len(lines) == 3:
+    _, line1, line2 = lines
+else:
+    line1, line2 = lines
+self.tle = twoline2rv(line1, line2, wgs72)
+self._orbit = orbit
+self._bound_to = self._state(orbit)
+"""
+EXPECT_GETTER = "return self._orbit if hasattr(self, '_orbit') else None"
+EXPECT_PROPAGATE = """
+if self._state(self._orbit) != self._bound_to:
+    self.orbit = self._orbit
+if type(date) is timedelta:
+    date = self.orbit.date + date
+utc = date.change_scale('UTC')
+_date = [float(x) for x in f'{utc:%Y %m %d %H %M %S.%f}'.split()]
+p, v = self.tle.propagate(*_date)
+result = [x * 1000 for x in p + v]
+res_dict = self.orbit._data.copy()
+res_dict['date'] = date
+res_dict['form'] = 'cartesian'
+res_dict.pop('propagator')
+return StateVector(result, **res_dict)
+"""
+
+
+def _norm(src):
+    return [ast.unparse(st) for st in ast.parse(src.strip()).body]
+
+
+def _stmts(fn):
+    return [ast.unparse(st) for st in fn.body if not (isinstance(st, ast.Expr) and isinstance(st.value, ast.Constant))]
+
+
+def gen_wrap_bind():
+    tree = ast.parse(open(WRAP_PY).read())
+    cls = py2lean.find_function(tree, "Sgp4")
+    members = []
+    fns = {}
+    for n in cls.body:
+        if isinstance(n, ast.Expr) and isinstance(n.value, ast.Constant):
+            continue
+        if not isinstance(n, ast.FunctionDef):
+            raise py2lean.Untranslatable(f"class Sgp4 has a member that is not a method: {ast.unparse(n)[:60]}")
+        name = n.name + (".setter" if any("setter" in ast.unparse(d) for d in n.decorator_list) else "")
+        members.append(name)
+        fns[name] = n
+    known = ["orbit", "orbit.setter", "_state", "propagate"]
+    if sorted(members) != sorted(known):
+        raise py2lean.Untranslatable(f"class Sgp4 has members {members}; the wrapper model knows {known} (every other method is a path to the satellite record that is not modelled)")
+    for name, expect in (("orbit", EXPECT_GETTER), ("orbit.setter", EXPECT_SETTER), ("propagate", EXPECT_PROPAGATE)):
+        if _stmts(fns[name]) != _norm(expect):
+            diff = [a for a in _stmts(fns[name]) if a not in _norm(expect)]
+            raise py2lean.Untranslatable(f"Sgp4.{name} is not the modelled statement list; not modelled: {diff[:3]}")
+    # who else writes the record / the key
+    for name, fn in fns.items():
+        for node in ast.walk(fn):
+            if isinstance(node, ast.Attribute) and isinstance(node.ctx, ast.Store) and node.attr in ("tle", "_bound_to", "_orbit") and name != "orbit.setter":
+                raise py2lean.Untranslatable(f"Sgp4.{name} assigns self.{node.attr}: only the setter may")
+    # _state: the key
+    st = fns["_state"]
+    body = [x for x in st.body if not (isinstance(x, ast.Expr) and isinstance(x.value, ast.Constant))]
+    local = {}
+    for x in body[:-1]:
+        if not (isinstance(x, ast.Assign) and len(x.targets) == 1 and isinstance(x.targets[0], ast.Name)):
+            raise py2lean.Untranslatable(f"Sgp4._state: {ast.unparse(x)[:60]}")
+        local[x.targets[0].id] = x.value
+    ret = body[-1]
+    if not (isinstance(ret, ast.Return) and isinstance(ret.value, ast.Tuple)):
+        raise py2lean.Untranslatable("Sgp4._state does not return a tuple")
+    key = []
+    for e in ret.value.elts:
+        e = local.get(e.id, e) if isinstance(e, ast.Name) else e
+        txt = ast.unparse(e)
+        if txt == "orbit.tobytes()":
+            key.append("tobytes")
+        elif isinstance(e, ast.Attribute) and isinstance(e.value, ast.Name) and e.value.id == "orbit":
+            key.append(e.attr)
+        elif (isinstance(e, ast.Call) and ast.unparse(e.func) == "tuple" and isinstance(e.args[0], ast.GeneratorExp)
+              and ast.unparse(e.args[0].elt) == "orbit._data.get(k)" and isinstance(e.args[0].generators[0].iter, (ast.Tuple, ast.List))):
+            key += [c.value for c in e.args[0].generators[0].iter.elts]
+        else:
+            raise py2lean.Untranslatable(f"Sgp4._state compares {txt[:60]}: not modelled")
+    # what Tle.from_orbit reads of the orbit
+    fo = py2lean.find_function(ast.parse(open(TLE_PY).read()), "Tle.from_orbit")
+    reads = []
+    for node in ast.walk(fo):
+        r = None
+        if isinstance(node, ast.Attribute) and isinstance(node.value, ast.Name) and node.value.id == "orbit" and isinstance(node.ctx, ast.Load):
+            r = node.attr
+        elif isinstance(node, ast.Assign) and isinstance(node.value, ast.Name) and node.value.id == "orbit":
+            r = "coords"           # `i, Ω, e, ω, M, n = orbit`
+        if r and r not in reads:
+            reads.append(r)
+    q = lambda xs: "[" + ", ".join('"' + x + '"' for x in xs) + "]"
+    return ("/- GENERATED by harness/props/C07.py (gen_wrap_bind) from beyond/propagators/sgp4.py and beyond/io/tle.py — do not edit.\n"
+            "The statement lists of Sgp4.orbit (getter, setter) and Sgp4.propagate were compared with the ones the wrapper model stands for\n"
+            "(the extraction fails on any other shape); what is left to prove is about the two sets below. -/\n"
+            "namespace BeyondVerif.Sgp4Wrap\n\n"
+            f"/-- members of class Sgp4 -/\ndef sgp4Members : List String := {q(members)}\n\n"
+            f"/-- what `Sgp4._state(orbit)` compares (`orbit.<name>`, `orbit._data.get(<name>)`) -/\ndef stateKeyReads : List String := {q(key)}\n\n"
+            f"/-- what `Tle.from_orbit(orbit)` reads of the orbit (`coords` = the six values of `orbit.copy(form='TLE', frame='TEME')`) -/\n"
+            f"def fromOrbitReads : List String := {q(reads)}\n\n"
+            "end BeyondVerif.Sgp4Wrap\n")
+
+
 def extract(ctx):
     body, loop, info = gen_beta()
     ch = py2lean.instantiate(core.LEAN, "Sgp4Beta", body, "beyond/propagators/sgp4beta.py")
+    if core.write_if_changed(os.path.join(core.LEAN, "BeyondVerif", "Generated", "Sgp4WrapBind.lean"), gen_wrap_bind()):
+        ch.append("Generated/Sgp4WrapBind.lean")
     ch += instantiate.main()
     return ch
 
